@@ -1,10 +1,11 @@
 ----------------------------- MODULE RoutingTrace -----------------------------
 EXTENDS Routing, TraceLib
 CONSTANT KnownDeviations
-VARIABLE l
-tvars == <<vars, l>>
+VARIABLES l,
+          unified, D     \* trace-only: unified registry in use; endpoints that dropped the model
+tvars == <<vars, l, unified, D>>
 Is(name) == l <= NEv /\ TLog[l].ev = name
-Consume  == l' = l + 1 /\ UNCHANGED scn
+Consume  == l' = l + 1 /\ UNCHANGED <<scn, unified, D>>
 E == TLog[l]
 SetOf(s) == {s[i] : i \in 1..Len(s)}
 
@@ -12,7 +13,9 @@ SetOf(s) == {s[i] : i \in 1..Len(s)}
 TReset == /\ Is("Reset")
           /\ strategy' = E.strategy /\ fallback' = E.fallback /\ refresh' = E.refresh
           /\ H' = SetOf(E.H) /\ L' = SetOf(E.L)
-          /\ phase' = "cfg" /\ served' = "none" /\ Consume
+          /\ phase' = "cfg" /\ served' = "none"
+          /\ unified' = E.unifier /\ D' = SetOf(E.D)
+          /\ l' = l + 1 /\ UNCHANGED scn
 TSend == Is("ClientSend") /\ Send /\ Consume
 TBackendRecv == Is("BackendRecv") /\ Dispatch(E.e) /\ Consume
 TClientDone == Is("ClientDone") /\ Answer(E.st, E.hs, E.hd) /\ Consume
@@ -23,13 +26,41 @@ TClientDone == Is("ClientDone") /\ Answer(E.st, E.hs, E.hd) /\ Consume
 KF_C09_1 == /\ "KF-C09-1" \in KnownDeviations
             /\ Is("ClientDone") /\ phase = "sent"
             /\ strategy = "discovery" /\ fallback = "all" /\ ~refresh /\ H # {} /\ H \cap L = {}
-            /\ E.st = (IF L = {} THEN 404 ELSE 503) /\ E.hd \in {"", "rejected"} /\ E.hs \in {"", strategy}
+            /\ E.st \in {404, 503} /\ E.hd \in {"", "rejected"} /\ E.hs \in {"", strategy}
             /\ phase' = "answered" /\ UNCHANGED <<strategy, fallback, refresh, H, L, served>>
             /\ Consume /\ UseDeviation("KF-C09-1")
 
+(* Known finding KF-C09-5 (only if listed): with the unified registry an endpoint that dropped the model in  *)
+(* a later listing stays a source of the unified model (unifyModelsAsync only ever merges), so a request  *)
+(* for the model is still routed to it. D = endpoints that listed the model earlier and dropped it.         *)
+KF_C09_5_Recv == /\ "KF-C09-5" \in KnownDeviations
+                 /\ Is("BackendRecv") /\ phase = "sent" /\ unified /\ E.e \in (H \cap D) /\ E.e \notin Targets
+                 /\ phase' = "stale" /\ served' = E.e
+                 /\ UNCHANGED <<strategy, fallback, refresh, H, L>> /\ unified' = unified /\ D' = D
+                 /\ l' = l + 1 /\ UNCHANGED scn /\ UseDeviation("KF-C09-5")
+KF_C09_5_Done == /\ "KF-C09-5" \in KnownDeviations
+                 /\ Is("ClientDone") /\ phase = "stale" /\ E.st = 200
+                 /\ phase' = "answered" /\ served' = "none" /\ UNCHANGED <<strategy, fallback, refresh, H, L>> /\ unified' = unified /\ D' = D
+                 /\ l' = l + 1 /\ UNCHANGED scn
+
+\* same root cause seen through the header: the stale entry makes olla report "routed" although no
+\* listing contains the model any more (the request went to a member of the lenient fallback set)
+KF_C09_5_Hdr == /\ "KF-C09-5" \in KnownDeviations
+                /\ Is("ClientDone") /\ phase = "served" /\ unified /\ served \in D /\ H \cap L = {}
+                /\ E.st = 200 /\ E.hd = "routed" /\ E.hs \in {"", strategy}
+                /\ phase' = "answered" /\ UNCHANGED <<strategy, fallback, refresh, H, L, served>> /\ unified' = unified /\ D' = D
+                /\ l' = l + 1 /\ UNCHANGED scn /\ UseDeviation("KF-C09-5")
+
+\* ... and through the status: a stale unhealthy "source" turns not-found (404) into unavailable (503)
+KF_C09_5_Status == /\ "KF-C09-5" \in KnownDeviations
+                   /\ Is("ClientDone") /\ phase = "sent" /\ unified /\ L = {} /\ D \ H # {} /\ H \cap D = {}
+                   /\ Action = "rejected" /\ E.st = 503 /\ E.hd \in {"", "rejected"} /\ E.hs \in {"", strategy}
+                   /\ phase' = "answered" /\ UNCHANGED <<strategy, fallback, refresh, H, L, served>> /\ unified' = unified /\ D' = D
+                   /\ l' = l + 1 /\ UNCHANGED scn /\ UseDeviation("KF-C09-5")
+
 TraceInit == /\ strategy = "strict" /\ fallback = "none" /\ refresh = FALSE /\ H = {} /\ L = {}
-             /\ phase = "answered" /\ served = "none" /\ scn = <<>> /\ l = 1
-TraceNext == TReset \/ TSend \/ TBackendRecv \/ TClientDone \/ KF_C09_1
+             /\ phase = "answered" /\ served = "none" /\ scn = <<>> /\ l = 1 /\ unified = FALSE /\ D = {}
+TraceNext == TReset \/ TSend \/ TBackendRecv \/ TClientDone \/ KF_C09_1 \/ KF_C09_5_Recv \/ KF_C09_5_Done \/ KF_C09_5_Hdr \/ KF_C09_5_Status
 TraceSpec == TraceInit /\ [][TraceNext]_tvars
 HW == HWMark(l)
 =============================================================================
